@@ -431,6 +431,9 @@ def rand_case(rng, code, lexer):
 
 
 # --------------------------------------------------------------------------------------------- one case through both sides
+HISTORY = []  # (case, result) of earlier renders in this process, for the history-independence pass
+
+
 def run_case(ctx, c, shape):
     if not representable(c.code):
         ctx.note("skipped:surrogate")
@@ -445,6 +448,8 @@ def run_case(ctx, c, shape):
                   "concatenated Pygments tokens differ from the preprocessed input (stripnl=%d)" % STRIPNL)
         ctx.case("syn_contract", [enc_str(c.code), c.tab_size, STRIPNL, enc_str_list(toks)], enc_bool(contract))
     res = render_rows(c.syntax(), c)
+    if shape in ("random", "gutter") and len(HISTORY) < (420 if ctx.quick else 8000) and (shape == "gutter" or len(HISTORY) < (300 if ctx.quick else 7000)):
+        HISTORY.append((c, res))
     ctx.note("result:" + (res[0] if res[0] == "ok" else res[1]))
     ctx.note(f"lexer:{c.lexer}")
     ctx.note("numbers:%s range:%s guides:%s wrap:%s" % (int(c.line_numbers), "y" if c.line_range else "n", int(c.indent_guides), int(c.word_wrap)))
@@ -576,6 +581,39 @@ def syntax_cases(ctx, rng):
         ctx.flush()
 
 
+# --------------------------------------------------------------------------------------------- history independence of Syntax
+def history_cases(ctx, rng):
+    """Everything rendered earlier in this process is rendered again, in another order, interleaving lexers, themes and
+    options: (a) through a fresh Syntax, (b) through ONE long-lived Syntax object whose public attributes are
+    reassigned.  A render may depend on its own inputs only — any module-, class- or instance-level memory
+    (lexer objects, theme/style caches, cached widths or highlighted text) that is keyed too coarsely shows up here."""
+    from rich.syntax import Syntax
+
+    order = list(HISTORY)
+    rng.shuffle(order)
+    reused = Syntax("", "python")
+    for c, res in order:
+        again = render_rows(c.syntax(), c)
+        ctx.check(again == res, "Syntax(history of renders)", c.as_dict(),
+                  "the same Syntax rendered later in the process gives different rows: first %r, now %r" % (res, again))
+        reused.code = c.code
+        reused.lexer_name = c.lexer
+        reused.line_numbers = c.line_numbers
+        reused.start_line = c.start_line
+        reused.line_range = c.line_range
+        reused.highlight_lines = set(c.highlight)
+        reused.code_width = c.code_width
+        reused.tab_size = c.tab_size
+        reused.word_wrap = c.word_wrap
+        reused.background_color = c.bg
+        reused.indent_guides = c.indent_guides
+        reused._theme = Syntax.get_theme(c.theme)
+        again2 = render_rows(reused, c)
+        ctx.check(again2 == res, "Syntax(reused object)", c.as_dict(),
+                  "a Syntax object whose attributes were reassigned renders differently from a new one: new %r, reused %r" % (res, again2))
+    del HISTORY[:]
+
+
 # --------------------------------------------------------------------------------------------- Syntax.from_path (glue)
 TB_ROOT = "/tmp/C17"
 
@@ -668,11 +706,45 @@ def run_module(path, src):
     return None
 
 
+ANSI_RE = re.compile(r"\x1b\[[0-9;]*m")
 BORDER_RE = re.compile(r"^│ (.*) │$", re.S)
 HEADER_RE = re.compile(r"^(/.*?):(\d+) in (\S+)\s*$")
 
 
+def gen_pair(rng):
+    """Two sources for a traceback that crosses files: `lib` defines helper() which raises, `main` calls it
+    (optionally re-raising a chained exception).  Shapes vary in leading blank lines, failing line and length."""
+    filler = ["a = 1", "b = 'あいう'  # wide", "", "c = [1, 2,\t3]", "# comment", "e = {'k': 'v'}", "d = " + " + ".join(["1"] * 40)]
+    ind = rng.choice(["    ", "\t", "  "])
+
+    def block(n):
+        return [rng.choice(filler) for _ in range(n)]
+
+    lib = ["\n" * rng.choice([0, 0, 1, 2, 3, 5, 9]).__mul__(1)] if False else []
+    lib_lead = rng.choice([0, 0, 1, 2, 3, 5, 9])
+    lib_body = block(rng.choice([0, 1, 3, 7])) + ["def helper(v):"] + [ind + "w = v + %d" % i for i in range(rng.choice([0, 1, 2, 4]))] + \
+        [ind + rng.choice(["raise KeyError(v)", "raise ValueError('lib %d' % v)", "return 1 // (v - v)"]), ind + "return v"] + block(rng.choice([0, 0, 2, 5]))
+    main_lead = rng.choice([0, 0, 1, 2, 4, 6, 10])
+    call = rng.choice(["flat", "func", "chained"])
+    if call == "flat":
+        main_body = block(rng.choice([0, 1, 2, 6])) + ["helper(%d)" % rng.randint(1, 9)] + block(rng.choice([0, 1, 3]))
+    elif call == "func":
+        main_body = block(rng.choice([0, 2, 5])) + ["def go():", ind + "x = 1", ind + "return helper(x)", "", "go()"] + block(rng.choice([0, 2]))
+    else:
+        main_body = block(rng.choice([0, 1, 4])) + ["try:", ind + "helper(2)", "except Exception as err:", ind + "raise RuntimeError('outer') from err"] + block(rng.choice([0, 2]))
+    end = rng.choice(["\n", "\n", "", "\n\n"])
+    return "\n" * lib_lead + "\n".join(lib_body) + end, "\n" * main_lead + "\n".join(main_body) + rng.choice(["\n", ""]), call
+
+
+def read_now(path):
+    """The file as it is at this moment (the reference is never taken from a cache)."""
+    with open(path, "rt", encoding="utf-8", errors="replace") as f:
+        return f.read()
+
+
 def traceback_cases(ctx, rng):
+    import importlib
+
     import rich.traceback as rtb
     from rich.console import Console
 
@@ -688,58 +760,123 @@ def traceback_cases(ctx, rng):
     shutil.rmtree(root, ignore_errors=True)
     os.makedirs(root)
     rtb.Syntax = RecordingSyntax
+
+    def render_and_check(info, src, path, generated, site, label):
+        """Render one traceback, compare it with the files as they are NOW.  `generated` = paths written by this harness."""
+        extra = rng.choice([3, 3, 0, 1, 2, 5, 10])
+        ww = rng.random() < 0.2
+        ig = rng.random() < 0.7
+        width = rng.choice([100, 100, 120, 140])
+        theme = rng.choice([None, None, "monokai", "ansi_light", "default"])  # interleaved: theme/style caches must not leak characters
+        ctx.note(f"tb:extra={extra}")
+        del recorded[:]
+        tb = rtb.Traceback.from_exception(*info, width=width, extra_lines=extra, word_wrap=ww, indent_guides=ig, theme=theme)
+        console = Console(file=io.StringIO(), width=200, color_system=rng.choice([None, None, "truecolor"]), force_terminal=False, legacy_windows=False)
+        stacks = list(reversed(tb.trace.stacks))  # the order they are rendered in
+        frames = [fr for st in stacks for fr in st.frames]
+        inp = {"label": label, "source": src, "path": path, "extra_lines": extra, "word_wrap": ww, "indent_guides": ig, "width": width, "theme": theme,
+               "frames": [(fr.filename, fr.lineno) for fr in frames],
+               "files_now": {g: read_now(g) for g in generated}}
+        # the reference must be fresh: nothing below may come from a cache filled by an earlier render
+        linecache.clearcache()
+        importlib.invalidate_caches()
+        try:
+            console.print(tb)
+            out = ANSI_RE.sub("", console.file.getvalue())
+            err = None
+        except Exception as e:
+            out, err = "", e
+        # ---- correspondence: the Syntax built for each frame (code, options), and its rendering
+        readable = [fr for fr in frames if not fr.filename.startswith("<")]
+        if err is None and len(recorded) == len(readable):
+            k = 0
+            for st in stacks:
+                ids, codes = [], []
+                for fr in st.frames:
+                    if fr.filename.startswith("<"):
+                        continue
+                    syn = recorded[k][0]
+                    k += 1
+                    now = read_now(fr.filename)
+                    ctx.check(syn.code == now, "Traceback._render_stack.read_code", inp,
+                              "the Syntax for frame %s:%d was built from text that is not the file's content now "
+                              "(first difference at char %d)" % (fr.filename, fr.lineno, next((i for i, (x, y) in enumerate(zip(syn.code, now)) if x != y), min(len(syn.code), len(now)))),
+                              finding=None)
+                    if fr.filename in generated:
+                        ids.append(generated.index(fr.filename))
+                        codes.append(syn.code)
+                if ids and all(representable(c) for c in codes):
+                    ctx.case("tb_codes", [enc_str_list([read_now(g) for g in generated]), " ".join(map(str, ids))], enc_str_list(codes),
+                             shape="files%d-frames%d" % (len(generated), min(len(ids), 4)), sample=f"read_code {label}")
+        for syn, a, k_ in recorded:
+            lineno = min(syn.highlight_lines) if syn.highlight_lines else 0
+            got = "%s;%s;%s;%s;%s;%s;%s;%s" % (enc_bool(syn.line_numbers), syn.start_line, enc_range(syn.line_range),
+                                               " ".join(str(h) for h in sorted(syn.highlight_lines)), enc_opt(syn.code_width),
+                                               syn.tab_size, enc_bool(syn.word_wrap), enc_bool(syn.indent_guides))
+            ctx.case("tb_opts", [lineno, extra, enc_bool(ww), enc_bool(ig)], got, shape="frame")
+            ctx.check(syn.dedent is False and isinstance(syn.lexer_name, str), "Traceback._render_stack", inp, "frame Syntax built with dedent / without a lexer name")
+            if len(syn.code) < 4000 and representable(syn.code):
+                c = Case(code=syn.code, lexer=syn.lexer_name, theme="ansi_dark", line_numbers=syn.line_numbers, start_line=syn.start_line,
+                         line_range=syn.line_range, highlight=tuple(sorted(syn.highlight_lines)), code_width=syn.code_width,
+                         tab_size=syn.tab_size, word_wrap=syn.word_wrap, indent_guides=syn.indent_guides, width=96)
+                run_case(ctx, c, "traceback-frame")
+        # ---- direct evaluation on the printed traceback
+        finding = None
+        if err is not None:
+            if STRIPNL and isinstance(err, RuntimeError) and "StopIteration" in str(err) and (src.startswith("\n") or src.endswith("\n\n")):
+                finding = "traceback-stripnl-shifts-failing-line"
+            ctx.check(False, site, inp, "printing the traceback raised %s: %s" % (type(err).__name__, err), finding=finding)
+            return
+        why, finding = eval_traceback(out, frames, extra, ww, ig, src, path)
+        ctx.check(why is None, site, inp, why or "", finding=finding)
+
     try:
-        n_mod = 120 if ctx.quick else 2500
+        # ---- (1) independent modules, fresh path each
+        n_mod = 90 if ctx.quick else 2500
         for i in range(n_mod):
             src, lead, shape = gen_module(rng)
             path = os.path.join(root, "m%d.py" % i)
             with open(path, "w", encoding="utf-8", newline="") as f:
                 f.write(src)
-            linecache.checkcache(path)
             info = run_module(path, src)
             if info is None:
                 raise RuntimeError("generated module did not raise")
-            extra = rng.choice([3, 3, 0, 1, 2, 5, 10])
-            ww = rng.random() < 0.2
-            ig = rng.random() < 0.7
-            width = rng.choice([100, 100, 120, 140])
             ctx.note(f"tb:shape={shape}")
             ctx.note(f"tb:leading-blank={min(lead, 6)}")
-            ctx.note(f"tb:extra={extra}")
-            del recorded[:]
-            tb = rtb.Traceback.from_exception(*info, width=width, extra_lines=extra, word_wrap=ww, indent_guides=ig)
-            console = Console(file=io.StringIO(), width=200, color_system=None, force_terminal=False, legacy_windows=False)
-            frames = [fr for st in tb.trace.stacks for fr in st.frames]
-            inp = {"source": src, "path": path, "extra_lines": extra, "word_wrap": ww, "indent_guides": ig, "width": width,
-                   "frames": [(fr.filename, fr.lineno) for fr in frames]}
-            try:
-                console.print(tb)
-                out = console.file.getvalue()
-                err = None
-            except Exception as e:
-                out, err = "", e
-            # ---- correspondence: the Syntax built for each frame (options), and its rendering
-            for syn, a, k in recorded:
-                lineno = min(syn.highlight_lines) if syn.highlight_lines else 0
-                got = "%s;%s;%s;%s;%s;%s;%s;%s" % (enc_bool(syn.line_numbers), syn.start_line, enc_range(syn.line_range),
-                                                   " ".join(str(h) for h in sorted(syn.highlight_lines)), enc_opt(syn.code_width),
-                                                   syn.tab_size, enc_bool(syn.word_wrap), enc_bool(syn.indent_guides))
-                ctx.case("tb_opts", [lineno, extra, enc_bool(ww), enc_bool(ig)], got, shape="frame")
-                ctx.check(syn.dedent is False and isinstance(syn.lexer_name, str), "Traceback._render_stack", inp, "frame Syntax built with dedent / without a lexer name")
-                if len(syn.code) < 4000 and representable(syn.code):
-                    c = Case(code=syn.code, lexer=syn.lexer_name, theme="ansi_dark", line_numbers=syn.line_numbers, start_line=syn.start_line,
-                             line_range=syn.line_range, highlight=tuple(sorted(syn.highlight_lines)), code_width=syn.code_width,
-                             tab_size=syn.tab_size, word_wrap=syn.word_wrap, indent_guides=syn.indent_guides, width=96)
-                    run_case(ctx, c, "traceback-frame")
-            # ---- direct evaluation on the printed traceback
-            finding = None
-            if err is not None:
-                if isinstance(err, RuntimeError) and "StopIteration" in str(err) and (src.startswith("\n") or src.endswith("\n\n")):
-                    finding = "traceback-stripnl-shifts-failing-line"
-                ctx.check(False, "Traceback.__rich_console__", inp, "printing the traceback raised %s: %s" % (type(err).__name__, err), finding=finding)
+            render_and_check(info, src, path, [path], "Traceback.__rich_console__", "fresh-path")
+        # ---- (2) histories in ONE process over the SAME paths whose contents change between renders:
+        #          what is shown must depend only on the files as they are when the traceback is rendered
+        main_path = os.path.join(root, "reused_main.py")
+        lib_path = os.path.join(root, "reused_lib.py")
+        single_path = os.path.join(root, "reused_single.py")
+        n_rounds = 50 if ctx.quick else 1200
+        for i in range(n_rounds):
+            if rng.random() < 0.35:
+                src, lead, shape = gen_module(rng)
+                with open(single_path, "w", encoding="utf-8", newline="") as f:
+                    f.write(src)
+                info = run_module(single_path, src)
+                ctx.note("tb-history:single")
+                render_and_check(info, src, single_path, [single_path], "Traceback(history of renders)", "reused-path round %d" % i)
                 continue
-            why, finding = eval_traceback(out, frames, extra, ww, ig, src, path)
-            ctx.check(why is None, "Traceback.__rich_console__", inp, why or "", finding=finding)
+            lib_src, main_src, call = gen_pair(rng)
+            if rng.random() < 0.25 and i:  # change only one of the two files this round
+                lib_src = read_now(lib_path) if os.path.exists(lib_path) and "def helper" in read_now(lib_path) else lib_src
+            with open(lib_path, "w", encoding="utf-8", newline="") as f:
+                f.write(lib_src)
+            with open(main_path, "w", encoding="utf-8", newline="") as f:
+                f.write(main_src)
+            ns = {"__name__": "c17_generated"}
+            info = None
+            try:
+                exec(compile(lib_src, lib_path, "exec"), ns)
+                exec(compile(main_src, main_path, "exec"), ns)
+            except Exception:
+                info = sys.exc_info()
+            if info is None:
+                raise RuntimeError("generated module pair did not raise")
+            ctx.note("tb-history:pair-" + call)
+            render_and_check(info, main_src, main_path, [main_path, lib_path], "Traceback(history of renders)", "reused-paths round %d" % i)
     finally:
         rtb.Syntax = RealSyntax
         shutil.rmtree(root, ignore_errors=True)
@@ -769,7 +906,14 @@ def eval_traceback(out, frames, extra, ww, ig, src, path):
     if [(b[0], b[1]) for b in blocks] != want:
         return "frame headers %r differ from the traceback's frames %r" % ([(b[0], b[1]) for b in blocks], want), None
     for filename, lineno, _name, srows in blocks:
+        linecache.checkcache(filename)
         lines = linecache.getlines(filename)
+        try:
+            now = read_now(filename).splitlines(True)
+        except OSError:
+            continue
+        if [l.rstrip("\n") for l in lines] != [l.rstrip("\n") for l in now]:
+            lines = now  # linecache did not notice a rewrite (same size and time stamp): the file itself is the reference
         if not lines or lineno > len(lines):
             continue
         P = [l.rstrip("\n").expandtabs(4) for l in lines]
@@ -803,7 +947,7 @@ def eval_traceback(out, frames, extra, ww, ig, src, path):
         if why:
             finding = None
             text = "".join(lines)
-            if filename == path and (text.startswith("\n")):
+            if STRIPNL and filename == path and (text.startswith("\n")):
                 finding = "traceback-stripnl-shifts-failing-line"
             return why, finding
     return None, None
@@ -848,6 +992,7 @@ def run(ctx):
     fit_correspondence(ctx, rng)
     syntax_cases(ctx, rng)
     from_path_cases(ctx, rng)
+    history_cases(ctx, rng)
     traceback_cases(ctx, rng)
     ctx.rule = (
         "helpers: every string <= 5/6 over small alphabets (expandtabs, preprocessing, split, remove_suffix, highlight x all ranges, "
@@ -856,7 +1001,10 @@ def run(ctx):
         "seeded random sources from per-lexer line pools (leading/trailing/interior blank lines, tabs, wide and zero-width characters, "
         "CRLF, BOM, control characters, no final newline, empty) x 5 lexers x line_numbers x start_line (digit boundaries) x 8 range shapes x "
         "highlight_lines x word_wrap x code_width x tab_size x indent_guides x themes x background x widths x no_wrap/legacy/ascii; gutter series; "
-        "generated raising modules (5 shapes x leading blank lines x extra_lines x word_wrap x indent_guides) through Traceback; "
+        "generated raising modules (5 shapes x leading blank lines x extra_lines x word_wrap x indent_guides x themes) through Traceback, first on "
+        "fresh paths, then as a HISTORY in one process over the same 3 paths rewritten between renders (single module / main+lib pair / chained "
+        "exception; different leading blank lines, failing line, length), every render compared with the files read at that moment; "
+        "every random Syntax case re-rendered later in shuffled order, fresh and through one reused Syntax object; "
         "distinct = distinct canonical requests" % (4 if ctx.quick else 5, ALPHA)
     )
 
@@ -894,12 +1042,16 @@ MANIFEST = {
     "number fits the column computed from the newline count; gutter has constant width, removing it leaves the code cell); "
     "fitted_line_is_line (a line that fits is shown exactly + padding, a longer one is set_cell_size of it); guides_only_overdraw_indent; "
     "traceback_marks_failing_line (exactly one marked row, numbered lineno, showing line lineno, for every extra_lines / leading blank lines / "
-    "file length / indent guides). Proved for the repaired variant (stripnl=False; StopIteration guarded); `old_*` witnesses (decide) show today's "
+    "file length / indent guides); render_history_independent + stack_cache_transparent (for every history of renders the code a frame's Syntax "
+    "is built from is the file's content at the moment of that render; read_code's per-call cache is transparent; witness that a persistent "
+    "cache would show stale text). Proved for the repaired variant (stripnl=False; StopIteration guarded); `old_*` witnesses (decide) show today's "
     "variant violates them. Tie: every run renders ~20k real Syntax objects (5 lexers incl. unknown, every option axis, bounded-exhaustive "
     "sources <=4 over {a,space,newline,tab,wide}) through a real Console and compares all rows character for character with the model fed the "
     "real Pygments token stream; helper functions (expandtabs, Pygments preprocessing, Text.split/remove_suffix, Syntax.highlight for all ranges, "
     "indent guides, slices, str(n), _numbers_column_width) compared exhaustively on small alphabets; Syntax.from_path; 120 generated raising "
-    "modules rendered through Traceback and checked against linecache; plus direct evaluation of the statement on rich's own output.",
+    "modules rendered through Traceback and checked against the files; a HISTORY of tracebacks in one process over the same paths rewritten "
+    "between renders (single module, main+lib pair, chained exception), each compared with the files read at that moment, and every random "
+    "Syntax case re-rendered later in shuffled order both fresh and through one reused Syntax object (history independence); plus direct evaluation of the statement on rich's own output.",
     "note": "PARTIAL where stated: (1) the Pygments lexer is a parameter — the contract is checked per case, not proved; (2) theorems assume a "
     "clean source (no BS/VT/FF/CR, no BOM), range end >= 0, tab_size >= 1 with indent guides, start_line >= 0, dedent off; (3) word-wrapped "
     "lines that do not fit (C02's subject), code_width < 1, cropping through zero-width characters and BS/VT/FF behind a lexer answer "
